@@ -234,3 +234,15 @@ CLAIMED.update({
          "note": STD_NOTE + ORDER_NOTE,
          "technique": "static analysis: exhaustive evaluation of extracted control regions over their finite input domains against the documented decision tables (K6), must-pass-through (K3), who-may-write (K2)"},
 })
+CLAIMED.update({
+ "C05": {"level": "other",
+         "text": "The chain from event_add/del to the kernel is checked link by link on the extracted code: evmap_io_add_/evmap_io_del_ evaluated on every combination of the per-fd "
+                 "counters in {0,1,2}^3 x READ/WRITE/CLOSED/ET x backend success/failure (old = conditions with non-zero counter, backend slot called exactly on 0<->1 transitions with "
+                 "exactly those conditions plus ET, counters/return value follow, failed backend add commits nothing); event_changelist_add_/del_ on every old_events x request x prior "
+                 "change (add overwrites with ADD|ET, del cancels exactly when old_events lacks the condition); epoll_nochangelist_add/del change records, poll_add/poll_del POLL* bits "
+                 "and slot release only when no bit is left, select_add/select_del per-set guards, the nfds bound only raised (or lowered consulting both sets alike) and read/write "
+                 "set symmetry in the slot functions; epoll_dispatch applies and clears the change list before every wait; a non-inert epoll table row always reaches epoll_ctl; every "
+                 "eventop has init/add/del/dispatch. Declined: equality with the kernel's registration over add/del/close/reopen histories (needs the kernel).",
+         "note": STD_NOTE + ORDER_NOTE + " Together with C06 (the epoll table itself).",
+         "technique": "static analysis: exhaustive evaluation of extracted add/del code over finite counter/flag domains against a reference model (K6), channel-symmetry twins (K7), must-pass-through (K3), slot exhaustiveness (K10)"},
+})
